@@ -85,7 +85,7 @@ def parseOp (line : String) : Op :=
           else if op == "interp" then .uInterp dst idx (regNums a0) (regNums a1)
           else .bad line
         else if k == 'q' then
-          if ["map", "nats", "ints", "str", "zero", "regs"].contains op then .bCtor dst idx op a0
+          if ["map", "nats", "ints", "str", "zero", "regs", "embed"].contains op then .bCtor dst idx op a0
           else if ["plus", "minus", "times"].contains op then .bBin dst op (regNum a0) (regNum a1)
           else if ["neg", "normalize", "copy", "lt"].contains op then .bUn dst op (regNum a0)
           else if op == "scale" then .bScale dst (regNum a0) (regNum a1)
@@ -156,11 +156,17 @@ def runHist {α : Type} (desc : FieldDesc) (F : FOps α) (uSpec bSpec : String) 
   let uVar := unhex (uParts.getD 1 "58")
   let uBase : UPoly.Ring α := { F := F, varName := uVar, modulus := none }
   let uGensS := uParts.getD 2 "-"
+  let uGens2S := uParts.getD 3 "-"      -- optional second modulus: ring 3 = another quotient of the same ring
   let env0 : Env α := { fld := fun _ => F, uring := fun _ => uBase,
                         bring := fun _ => { F := F, ord := ⟨.lex, true⟩, varNames := ("X", "Y"), ideal := none } }
   let uMod : Option (Option (UPoly α)) :=
     if uGensS == "-" then some none
     else match (uGensS.splitOn ";").mapM (decU env0) with
+      | some gens => (UPoly.newIdeal F gens).map some
+      | none => none
+  let uMod2 : Option (Option (UPoly α)) :=
+    if uGens2S == "-" then some none
+    else match (uGens2S.splitOn ";").mapM (decU env0) with
       | some gens => (UPoly.newIdeal F gens).map some
       | none => none
   -- bivariate rings
@@ -176,19 +182,19 @@ def runHist {α : Type} (desc : FieldDesc) (F : FOps α) (uSpec bSpec : String) 
         let gens := gens.map fun m => (BPoly.ofMap bBase m).getD []
         (BPoly.quotientGens F ord { gens := gens.filter (!·.isEmpty) }).map some
       | none => none
-  match uMod, bIdeal with
-  | some um, some bi =>
+  match uMod, uMod2, bIdeal with
+  | some um, some um2, some bi =>
     let env : Env α := {
       -- field objects 1, 2, … : further descriptors of the header if given, else twins of field 0
       fld := fun i => if i == 0 then F else more.getD (i - 1) F,
-      uring := fun i => if i == 1 then { uBase with modulus := um } else uBase,
+      uring := fun i => if i == 1 then { uBase with modulus := um } else if i == 3 then { uBase with modulus := um2 } else uBase,
       bring := fun i => if i == 1 then { bBase with ideal := bi } else bBase }
     let (_, outs) := ops.foldl (fun (st, outs) line =>
       let (st', r) := step env desc st (parseOp line)
       (st', outs ++ [if snap then r ++ " ## " ++ snapshot env st' else r])) (({} : St α), [])
     let final := ops.foldl (fun st line => (step env desc st (parseOp line)).1) ({} : St α)
     " | ".intercalate outs ++ (if snap then "" else " ## " ++ snapshot env final)
-  | _, _ => "fuel-exhausted (ring specification: ideal computation gave up or malformed generators)"
+  | _, _, _ => "fuel-exhausted (ring specification: ideal computation gave up or malformed generators)"
 
 def runHistLine (toks : List String) (rest : String) : String :=
   match toks with
@@ -267,6 +273,11 @@ def handle (line : String) : String :=
   | "aux" :: t => runAux t
   | "define" :: t => runDefine Gen.dbText t
   | ["conway", p, n] => showExcept natsStr (Conway.lookupIn Gen.dbText p.toNat! n.toNat!)
+  | "conwayseq" :: t =>
+    let rec go : List String → List String
+      | p :: n :: rest => showExcept natsStr (Conway.lookupIn Gen.dbText p.toNat! n.toNat!) :: go rest
+      | _ => []
+    " ; ".intercalate (go t)
   | ["conwayin", hex, p, n] => showExcept natsStr (Conway.lookupIn (unhex hex) p.toNat! n.toNat!)
   | "order" :: t => runOrder t
   | "shape" :: fd :: t =>
